@@ -79,18 +79,23 @@ structure RR (α : Type) where
   outflow : α
   sIndex : α
 
-/-- `runRouting`; `.error` = `panic("outflow is nan")` -/
-def runRouting {α} [Num α] (c : Ctx α) (qIndex : α) : Except String (RR α) :=
+/-- the arithmetic of `runRouting` -/
+def rr {α} [Num α] (c : Ctx α) (qIndex : α) : RR α :=
   let s := sIndex c qIndex
   let ns := newStorage c
   let massBalance :=
     if c.bias < 0.999 then (qIndex - c.bias * (c.inflow + c.lateral)) * c.duration / (1.0 - c.bias) + s - ns
     else 0.0
   let outflow := Num.gmax 0 (ns - s) / c.duration
-  if Num.isNaN outflow then .error "other" else .ok ⟨massBalance, outflow, s⟩
+  ⟨massBalance, outflow, s⟩
 
-/-- `evaluateRoutingMassBalance` as a total function for `FindRoot` (a panic inside it is detected separately by
-`evalPanics`: the callback panics exactly when `runRouting` does) -/
+/-- `runRouting`; `.error` = `panic("outflow is nan")` -/
+def runRouting {α} [Num α] (c : Ctx α) (qIndex : α) : Except String (RR α) :=
+  let r := rr c qIndex
+  if Num.isNaN r.outflow then .error "other" else .ok r
+
+/-- `evaluateRoutingMassBalance` as a total function for `FindRoot` (a panic inside it is detected separately:
+the callback panics exactly when `runRouting` does) -/
 def massBalanceFn {α} [Num α] (c : Ctx α) (q : α) : α :=
   match runRouting c q with
   | .ok r => r.massBalance
@@ -108,48 +113,72 @@ structure CO (α : Type) where
   storage : α
   tag : String
 
+/-- the `Ctx` of one `calcOutflow` call -/
+def mkCtx {α} [Num α] (inflow lateral bias prevStorage netEvapRate area deadStorage duration
+    routingPower routingConstant qlimit klimit koffset : α) : Ctx α :=
+  -- initialFluxMax := (math.Max(0.0, prevStorage) / duration) + inflow
+  ⟨inflow, lateral, (Num.gmax 0.0 prevStorage / duration) + inflow, prevStorage, area, netEvapRate, deadStorage, duration,
+    bias, routingPower, routingConstant, qlimit, klimit, koffset⟩
+
+/-- `maxQI := minQI + (1.0-bias)*math.Max(0.0, fluxmax+lateral)` with `fluxmax = initialFluxMax - netEvaporationFlux` -/
+def maxQI {α} [Num α] (c : Ctx α) (minQI : α) : α :=
+  minQI + (1.0 - c.bias) * Num.gmax 0.0 (c.initialFluxMax - netEvaporationFlux c + c.lateral)
+
+/-- the part of `calcOutflow` after the `maxQI <= minQI` test -/
+def solve {α} [Num α] (c : Ctx α) (prevQi minQI mx : α) : Except String (CO α) :=
+  match runRouting c mx with
+  | .error e => .error e
+  | .ok r =>
+    if r.massBalance < massBalanceLimit then
+      -- REPAIRED (fixes/storage_routing_full_drain_lateral.diff): `+ lateral` (the maximum index flow drains the lateral too)
+      let outflow := Num.gmax 0.0 (c.initialFluxMax - netEvaporationFlux c + c.lateral)
+      let storage := Num.gmax (c.storage + (c.inflow + c.lateral - netEvaporationFlux c - outflow) * c.duration) 0.0
+      .ok ⟨mx, outflow, storage, "full-drain-at-maxqi"⟩
+    else
+      let reset : Bool := decide (prevQi ≤ minQI) || decide (mx ≤ prevQi)
+      let qi := if reset then (minQI + mx) * 0.5 else prevQi
+      match runRouting c qi with
+      | .error e => .error e
+      | .ok r =>
+        if Num.abs r.massBalance < massBalanceLimit then
+          .ok ⟨qi, r.outflow, r.sIndex, if reset then "mid-qi" else "prev-qi"⟩
+        else
+          match OW.Fn.findRoot (massBalanceFn c) (some (slopeOfMassBalance c)) minQI minQI mx massBalanceLimit
+              convergenceLimit maxIterations with
+          | .error e => .error e
+          | .ok fr =>
+            -- a panic of the callback inside FindRoot (outflow NaN at some evaluation point)
+            if fr.evals.any (fun q => match runRouting c q with | .ok _ => false | .error _ => true) then .error "other"
+            else if Num.isNaN fr.delta then .error "other"    -- panic("delta is NaN")
+            else
+              match runRouting c fr.x with
+              | .error e => .error e
+              | .ok r => .ok ⟨fr.x, r.outflow, r.sIndex, "root"⟩
+
 /-- `calcOutflow` -/
 def calcOutflow {α} [Num α] (inflow lateral bias prevQi _prevOutflow prevStorage netEvapRate area deadStorage duration
-    routingPower routingConstant qlimit klimit koffset : α) : Except String (CO α) := do
-  let initialFluxMax := (Num.gmax 0.0 prevStorage / duration) + inflow
-  let c : Ctx α := ⟨inflow, lateral, initialFluxMax, prevStorage, area, netEvapRate, deadStorage, duration, bias,
-    routingPower, routingConstant, qlimit, klimit, koffset⟩
-  if Num.isNaN bias || Num.isNaN inflow || Num.isNaN lateral then throw "other"   -- panic("NAN!")
-  let minQI := bias * (inflow + lateral)
-  let r ← runRouting c minQI
-  if massBalanceLimit ≤ r.massBalance then
-    -- zero outflow; REPAIRED: the storage is the balance value, not SIndex(minQI)
-    return ⟨minQI, 0.0, newStorage c, "zero-at-minqi"⟩
-  if -massBalanceLimit ≤ r.massBalance then
-    let r ← runRouting c minQI
-    return ⟨minQI, r.outflow, r.sIndex, "balanced-at-minqi"⟩
-  let fluxmax := initialFluxMax
-  let nef := Num.gmin fluxmax (area * netEvapRate)
-  let fluxmax := fluxmax - nef
-  let maxQI := minQI + (1.0 - bias) * Num.gmax 0.0 (fluxmax + lateral)
-  if maxQI ≤ minQI then
-    -- REPAIRED likewise
-    return ⟨minQI, 0.0, newStorage c, "zero-maxqi-le-minqi"⟩
-  let r ← runRouting c maxQI
-  if r.massBalance < massBalanceLimit then
-    -- REPAIRED (fixes/storage_routing_full_drain_lateral.diff): `+ lateral` (the maximum index flow drains the lateral too)
-    let outflow := Num.gmax 0.0 (initialFluxMax - nef + lateral)
-    let storage := Num.gmax (prevStorage + (inflow + lateral - nef - outflow) * duration) 0.0
-    return ⟨maxQI, outflow, storage, "full-drain-at-maxqi"⟩
-  let reset : Bool := decide (prevQi ≤ minQI) || decide (maxQI ≤ prevQi)
-  let qi := if reset then (minQI + maxQI) * 0.5 else prevQi
-  let r ← runRouting c qi
-  if Num.abs r.massBalance < massBalanceLimit then
-    return ⟨qi, r.outflow, r.sIndex, if reset then "mid-qi" else "prev-qi"⟩
-  match OW.Fn.findRoot (massBalanceFn c) (some (slopeOfMassBalance c)) minQI minQI maxQI massBalanceLimit convergenceLimit
-      maxIterations with
-  | .error e => throw e
-  | .ok fr =>
-    -- a panic of the callback inside FindRoot (outflow NaN at some evaluation point)
-    if fr.evals.any (fun q => match runRouting c q with | .ok _ => false | .error _ => true) then throw "other"
-    if Num.isNaN fr.delta then throw "other"    -- panic("delta is NaN")
-    let r ← runRouting c fr.x
-    return ⟨fr.x, r.outflow, r.sIndex, "root"⟩
+    routingPower routingConstant qlimit klimit koffset : α) : Except String (CO α) :=
+  let c := mkCtx inflow lateral bias prevStorage netEvapRate area deadStorage duration routingPower routingConstant
+    qlimit klimit koffset
+  if Num.isNaN bias || Num.isNaN inflow || Num.isNaN lateral then .error "other"   -- panic("NAN!")
+  else
+    let minQI := bias * (inflow + lateral)
+    match runRouting c minQI with
+    | .error e => .error e
+    | .ok r =>
+      if massBalanceLimit ≤ r.massBalance then
+        -- zero outflow; REPAIRED: the storage is the balance value, not SIndex(minQI)
+        .ok ⟨minQI, 0.0, newStorage c, "zero-at-minqi"⟩
+      else if -massBalanceLimit ≤ r.massBalance then
+        match runRouting c minQI with
+        | .error e => .error e
+        | .ok r => .ok ⟨minQI, r.outflow, r.sIndex, "balanced-at-minqi"⟩
+      else
+        let mx := maxQI c minQI
+        if mx ≤ minQI then
+          -- REPAIRED likewise
+          .ok ⟨minQI, 0.0, newStorage c, "zero-maxqi-le-minqi"⟩
+        else solve c prevQi minQI mx
 
 structure St (α : Type) where
   qi : α
